@@ -23,6 +23,14 @@ def gen_cases(seed, tier, n):
         c = tracegen.gen_case(seed, i, tracegen.PROFILES[profs[i % len(profs)]])
         rng = random.Random(seed * 7919 + i)
         c["params"] = {"include_last": rng.random() < 0.5}
+        if i % 9 == 7:
+            # step numbers that do not grow with time (a counter reset: #8, #9, #3): "the last step" is the one that starts last
+            for rk in c["ranks"].values():
+                steps = [e for e in rk["events"] if str(e.get("name", "")).startswith("ProfilerStep#") and "dur" in e]
+                names = [e["name"] for e in steps]
+                rng.shuffle(names)
+                for e, nm in zip(steps, names):
+                    e["name"] = nm
         if i % 8 == 6:
             fw.set_quarter_us(c)           # quarter-microsecond resolution (framework.resolution): step containment on fractional times
         out.append(c)
